@@ -509,16 +509,16 @@ class Finding:
 
 
 def load_known_findings():
-    """KNOWN_FINDINGS.txt lines:  finding: property=<id> key=<key> <text>   |   fixed: property=<id> <commit> <text>"""
+    """KNOWN_FINDINGS.txt lines:  finding: property=<id> key=<key | "key with spaces"> <text>   |   fixed: property=<id> <commit> <text>"""
     out = {}
     p = os.path.join(VERIF, "KNOWN_FINDINGS.txt")
     if not os.path.exists(p):
         return out
     for line in open(p):
         line = line.strip()
-        m = re.match(r"^finding:\s+property=(\S+)\s+key=(\S+)\s+(.*)$", line)
+        m = re.match(r'^finding:\s+property=(\S+)\s+key=(?:"([^"]+)"|(\S+))\s+(.*)$', line)
         if m:
-            out.setdefault(m.group(1), {})[m.group(2)] = m.group(3)
+            out.setdefault(m.group(1), {})[m.group(2) or m.group(3)] = m.group(4)
     return out
 
 
